@@ -12,7 +12,7 @@ FILES = ["Base/Prelude.v", "Base/Dec.v", "Model/NetPropsLib.v", "Model/Identity.
 # identity_registrar.go, or a new call site outside it that writes the identity stores) is a broken
 # obligation until the change has been reviewed against the model and the pins renewed with
 #   python3 -c "import sys; sys.path[:0]=['/verif','/verif/lib']; import checks.c16 as c; c.repin()"
-PINFILE = os.path.join(os.path.dirname(os.path.abspath(__file__)), "c16_pins.json")
+PINFILE = os.environ.get("C16_PINFILE") or os.path.join(os.path.dirname(os.path.abspath(__file__)), "c16_pins.json")   # C16_PINFILE: pins of a reviewed candidate tree
 PINNED = {
     "x/gov/keeper/identity_registrar.go": None,      # None = every function of the file
     "x/gov/keeper/keeper.go": ["Keeper.EnsureUniqueKeys", "Keeper.EnsureOldUniqueKeysNotRemoved"],
@@ -129,9 +129,9 @@ def run(R):
     R.trusted += ["hand-written model Model/Identity.v of identity_registrar.go, the identity message ValidateBasic, ClaimCouncilor, ClaimValidator, the UniqueIdentityKeys write paths and the identity/balance/actor part of RotateRecoveryAddress; validated on every run by the differential run (results ok/rejected/panic, all records, raw address index, all requests, unique-key list, balances after every operation)",
                   "transaction atomicity (an error or panic discards the message's writes) is reproduced by the harness with one cached store per message, as baseapp does",
                   "request indexes by requester / approver are modelled as derived from the request store (kept consistent by SetIdentityRecordsVerifyRequest / DeleteIdRecordsVerifyRequest); iteration while deleting in the cachekv store is exercised by the differential run, not modelled",
-                  "two model flags are PROBED on the tree under test by the harness and passed to the model: del_fix (DeleteIdentityRecordById removes the address+key index entry) and msg_guard (MsgSetNetworkProperties applies the EnsureUniqueKeys guards); the theorems are stated per flag value",
+                  "three model flags are PROBED on the tree under test by the harness and passed to the model: del_fix (DeleteIdentityRecordById removes the address+key index entry), msg_guard (MsgSetNetworkProperties applies the EnsureUniqueKeys guards), rot_check (rotations refuse a target that already holds identity records); the theorems are stated per flag value",
                   "the modelled Go functions and the call sites outside identity_registrar.go that write the identity stores are pinned by fingerprint (checks/c16_pins.json); an edit is a broken obligation until reviewed",
-                  "genesis export/import of the gov module in the middle of a history is modelled as the identity on the registry (justified by invariant W: the index is determined by the records) and checked by the differential run and by clause 'genesis'",
+                  "genesis export/import of the gov module in the middle of a history is modelled as re-building the address+key index from the records in id order (what InitGenesis does through SetIdentityRecord), assuming no uniqueness conflict among stored records; clause 'genesis' demands that the round trip changes nothing observable",
                   "no axioms: every theorem of Properties/C16.v is closed under the global context"]
     R.assume += ["addresses are abstract integers (bech32 is a bijection); record and request ids stay far below 2^64",
                  "parties hold only the denominations ukex and utip; the rotation fee payer is a separate account",
